@@ -75,7 +75,7 @@ PROPS["C07"] = {
     "unverified_callers": [
         "Condition::build_if_command closure (evaluate -> true_case/false_case dispatch) and the VM expansion loop",
         "Parsable for (i32, Ordering, i32) (a macro-generated tuple impl) is assumed to return an arbitrary triple; its three components are proved separately in unit texlang_parse_int (i32 == parse_integer, Ordering == TeX 503: < = > of category 12 after skipping blanks, else Missing = inserted)",
-        "expansion.rs: both \\expandafter implementations are PROVED to satisfy the same postcondition (TeX's rule) over a trusted model of ExpandedStream::expand_once (one step on the first pending token; on an \\expandafter token that step is the rule itself - the induction hypothesis); \\noexpand and \\relax are NOT decided",
+        "expansion.rs: both \\expandafter implementations are PROVED to satisfy the same postcondition (TeX's rule) over a trusted model of ExpandedStream::expand_once (one step on the first pending token; on an \\expandafter token that step is the rule itself - the induction hypothesis); noexpand_hook is proved (fast path: nothing happens unless the tag is \\noexpand's; slow path: the next token is taken unexpanded and handed back); how the VM then delivers that token (streams.rs next_expanded / expand_once) is VM-internal dispatch and NOT decided",
         "command tags preserved by \\let (assumed: tag_of reads the tag of the aliased command)",
     ],
     "assumptions": ["the four conditional tags are pairwise distinct (StaticTag uniqueness, C20 tag clause)", "fewer than 2^31 - 65536 pending tokens (depth counter is an i32)"],
